@@ -74,3 +74,51 @@ Theorem baked_range_spec fuel s e :
                   ms_id m = nth (Z.to_nat (s + Z.of_nat k)) Gen.Baked.baked_lines [] /\
                   ms_file m = bakedrange_prefix ++ dec_of_Z (s + Z.of_nat k).
 Proof. exact (baked_range_ok Gen.Baked.baked_lines baked_positions_ok fuel s e). Qed.
+
+(* ---- a range that reaches outside the list is REFUSED whatever its width: the loop stops at the
+   first position outside, so the bounded fuel of tasks_to_messages (|list| + 1 steps at most) is
+   enough - the model never iterates over a board-supplied width ---- *)
+Lemma baked_range_refused_from s e fuel :
+  s < e -> 0 <= s <= 18632 -> 18632 < e -> (Z.to_nat (18632 - s) < fuel)%nat ->
+  exists err, baked_range_in Gen.Baked.baked_lines fuel s e = BErr err.
+Proof.
+  intros Hlt Hs He Hf.
+  remember (Z.to_nat (18632 - s)) as d eqn:Hd. revert s fuel Hlt Hs Hd Hf.
+  induction d as [|d IH]; intros s fuel Hlt Hs Hd Hf.
+  - assert (s = 18632) by lia. subst s.
+    destruct fuel as [|f]; [lia|]. cbn [baked_range_in].
+    replace (18632 <? e) with true by (symmetry; apply Z.ltb_lt; lia).
+    destruct (baked_positions_refused 18632 (or_intror (Z.le_refl _))) as [err Herr]. rewrite Herr. eexists; reflexivity.
+  - destruct fuel as [|f]; [lia|]. cbn [baked_range_in].
+    replace (s <? e) with true by (symmetry; apply Z.ltb_lt; lia).
+    destruct (baked_positions_ok s) as (v & _ & _ & Hok); [lia|]. rewrite Hok.
+    destruct (IH (s + 1) f) as [err Herr]; try lia. rewrite Herr. eexists; reflexivity.
+Qed.
+
+Theorem range_outside_refused lines_task :
+  tk_payload lines_task = None -> tk_start lines_task < tk_end lines_task ->
+  (tk_start lines_task < 0 \/ 18632 < tk_end lines_task) ->
+  forall rest, exists err, tasks_to_messages (lines_task :: rest) = BErr err.
+Proof.
+  intros Hp Hlt Hout rest. unfold tasks_to_messages. cbn [tasks_to_messages_in]. rewrite Hp.
+  assert (Hlen : Z.of_nat (length Gen.Baked.baked_lines) = 18633) by (vm_compute; reflexivity).
+  rewrite Hlen.
+  set (s := tk_start lines_task) in *. set (e := tk_end lines_task) in *.
+  assert (Hex : exists err, baked_range_in Gen.Baked.baked_lines (Z.to_nat (Z.min (e - s) (18633 + 1))) s e = BErr err).
+  { destruct (Z_lt_ge_dec s 0) as [Hneg|Hnn].
+    - (* the first position is negative *)
+      assert (Hf : exists f, Z.to_nat (Z.min (e - s) (18633 + 1)) = S f).
+      { exists (Nat.pred (Z.to_nat (Z.min (e - s) (18633 + 1)))). lia. }
+      destruct Hf as [f ->]. cbn [baked_range_in].
+      replace (s <? e) with true by (symmetry; apply Z.ltb_lt; lia).
+      destruct (baked_positions_refused s (or_introl Hneg)) as [err Herr]. rewrite Herr. eexists; reflexivity.
+    - destruct Hout as [Hneg|Hbig]; [lia|].
+      destruct (Z_le_gt_dec s 18632) as [Hin|Hbeyond].
+      + apply baked_range_refused_from; lia.
+      + assert (Hf : exists f, Z.to_nat (Z.min (e - s) (18633 + 1)) = S f).
+        { exists (Nat.pred (Z.to_nat (Z.min (e - s) (18633 + 1)))). lia. }
+        destruct Hf as [f ->]. cbn [baked_range_in].
+        replace (s <? e) with true by (symmetry; apply Z.ltb_lt; lia).
+        destruct (baked_positions_refused s) as [err Herr]; [right; lia|]. rewrite Herr. eexists; reflexivity. }
+  destruct Hex as [err Herr]. rewrite Herr. eexists; reflexivity.
+Qed.
